@@ -12,8 +12,9 @@ From stdpp Require Import base option list numbers fin_maps nmap.
 From Verif.Base Require Import Bytes.
 From Verif.Codec Require Import Packets Decode Encode.
 From Verif.Gateway Require Import GwTypes GwStep GwWf GwRun Sound_C16 Sound_C16b.
+From Verif.Match Require Import Match.
 From Verif.Client Require Import ClTypes ClStep Sound_Client.
-From Verif.System Require Import Compose ComposeProofs ComposeProofs2_aux ComposeProofs2 ComposeLoss ComposeLoss2 ComposeLoss3_aux ComposeLoss3 ComposeSleep ComposeSleepLoss.
+From Verif.System Require Import Compose ComposeProofs ComposeProofs2_aux ComposeProofs2 ComposeLoss ComposeLoss2 ComposeLoss3_aux ComposeLoss3 ComposeLoss4_aux ComposeLoss4 ComposeProofs3_aux ComposeProofs3 ComposeSleep ComposeSleepLoss.
 From Verif.Checkers Require Import ChkCodec ChkGw ChkGw5 ChkCl.
 Open Scope N_scope.
 
@@ -194,3 +195,39 @@ Theorem C16_qos2_loss_pattern_delivery :
     rets_of (trace1 retain topic mid payload [h] rd rs1 rs2 T dp) = [].
 Proof. exact trace1_facts. Qed.
 Print Assumptions C16_qos2_loss_pattern_delivery.
+
+(* The REGISTER step under ANY loss pattern within the budget (System/ComposeLoss4.v): a broker QoS 1 message on a name
+   without topic ID (RegReady), rs0 = the failed rounds of the REGISTER -> REGACK phase (true = REGISTER lost, false =
+   REGACK lost; the client answers a repeated REGISTER for the name it accepted under that ID with REGACK accepted
+   again), rs1 = the failed rounds of the PUBLISH -> PUBACK phase, at most RetryCount each (the retry counter restarts
+   with the PUBLISH).  Exact trace traceR: every REGISTER with the same topic ID i and message ID, the PUBLISH under
+   i at the instant of the accepted REGACK, retransmissions with DUP; afterwards client and gateway are quiescent and
+   hold the SAME new registration (RegDone).  traceR_facts: the broker gets exactly one PUBACK; the handler of the
+   first matching subscription runs once per PUBLISH that arrived, i.e. 1 + the number of lost PUBACKs - the
+   at-least-once of QoS 1 (the property asks "delivered" for QoS 1 and "exactly once" for QoS 2 only). *)
+Theorem C16_new_topic_qos1_survives_any_loss_pattern :
+  forall cfg y dup retain topic mid payload rs0 rs1 d,
+    Quiet cfg y -> RegReady cfg y topic -> 1 <= mid < 65536 -> okb payload = true ->
+    0 < retry_delay (e_gw cfg) ->
+    N.of_nat (length rs0) <= retry_count (e_gw cfg) -> N.of_nat (length rs1) <= retry_count (e_gw cfg) ->
+    N.of_nat (length rs0 + length rs1) < 99990 ->
+    faults1 cfg rs0 rs1 (y_c2g_k y) (y_g2c_k y) ->
+    N.of_nat (length rs0 + length rs1) * retry_delay (e_gw cfg) <= d ->
+    let t := gw_now (y_gw y) in
+    let i := gw_seq_next (y_gw y) in
+    let hs := handle_set (cl_handlers (y_cl y)) topic in
+    let m := MqPublish dup 1 retain topic mid payload in
+    exists y1 y2 tr1 tr2,
+      sys_step cfg y (SBpub m) = (y1, tr1) /\ sys_step cfg y1 (SAdv d) = (y2, tr2) /\
+      tr1 ++ tr2 = SoBS t m :: traceR retain topic mid i payload hs (retry_delay (e_gw cfg)) rs0 rs1 t dup /\
+      Quiet cfg y2 /\ gw_now (y_gw y2) = t + d /\ RegDone y y2 topic i.
+Proof. exact ComposeLoss4.C16_new_topic_qos1_survives_any_loss_pattern. Qed.
+Print Assumptions C16_new_topic_qos1_survives_any_loss_pattern.
+
+Theorem C16_new_topic_loss_pattern_delivery :
+  forall retain topic mid i payload h hs' rd rs1 rs0 T dp,
+    cbs_of (traceR retain topic mid i payload (h :: hs') rd rs0 rs1 T dp) = repeat (h, topic, payload) (S (count_false rs1)) /\
+    brs_of (traceR retain topic mid i payload (h :: hs') rd rs0 rs1 T dp) = [MqPuback mid] /\
+    rets_of (traceR retain topic mid i payload (h :: hs') rd rs0 rs1 T dp) = [].
+Proof. exact traceR_facts. Qed.
+Print Assumptions C16_new_topic_loss_pattern_delivery.
